@@ -1,13 +1,315 @@
 //go:build verif
 
-// placeholder: harness c10 is being written
+// Harness c10: ML-DSA (FIPS 204) — translation validation of the regenerated scalar functions
+// against the Go originals (export hooks), codec oracles, and algorithm-level correspondence
+// (key generation, deterministic / hedged / external-mu signing, verification decisions incl.
+// boundary signatures crafted by the reference, composite ML-DSA, keyset API) — property C10.
 package main
 
-import "github.com/tink-crypto/tink-go/v2/internal/verifharness/hlib"
+import (
+	"bufio"
+	"bytes"
+	"fmt"
+	"os"
+	"strconv"
+	"strings"
+
+	"golang.org/x/crypto/sha3"
+
+	imldsa "github.com/tink-crypto/tink-go/v2/internal/signature/mldsa"
+	"github.com/tink-crypto/tink-go/v2/internal/verifharness/hlib"
+	pmldsa "github.com/tink-crypto/tink-go/v2/signature/mldsa"
+)
+
+const q = imldsa.VerifQ
+
+// pset is one ML-DSA parameter set with the derived layout of a signature.
+type pset struct {
+	name                   string
+	par                    *imldsa.VerifParams
+	inst                   pmldsa.Instance
+	k, l, omega, lg        int
+	gamma1, gamma2, beta   uint32
+	ctLen, zPoly, zLen     int // c~ bytes; bytes per z polynomial; bytes of the whole z region
+	hLen, sigLen           int
+	pkLen, skLen, zBits    int
+}
+
+func mkPset(name string, par *imldsa.VerifParams, inst pmldsa.Instance) *pset {
+	p := &pset{name: name, par: par, inst: inst, k: par.VerifK(), l: par.VerifL(), omega: par.VerifOmega(), lg: par.VerifLog2Gamma1()}
+	p.gamma1 = 1 << uint(p.lg)
+	p.gamma2 = par.VerifGamma2()
+	p.beta = uint32(par.VerifTau() * par.VerifEta())
+	p.ctLen = par.VerifLambda() / 4
+	p.zBits = 1 + p.lg
+	p.zPoly = 32 * p.zBits
+	p.zLen = p.l * p.zPoly
+	p.hLen = p.omega + p.k
+	p.sigLen = p.ctLen + p.zLen + p.hLen
+	p.pkLen = par.PublicKeyLength()
+	p.skLen = par.SecretKeyLength()
+	return p
+}
+
+var psets []*pset
+
+func psetByName(n string) *pset {
+	for _, p := range psets {
+		if p.name == n {
+			return p
+		}
+	}
+	return nil
+}
+
+// gkey is a key pair produced by Go's key generation.
+type gkey struct {
+	ps           *pset
+	seed         [32]byte
+	pk           *imldsa.PublicKey
+	sk           *imldsa.SecretKey
+	pkb, skb     []byte
+	pkTok, skTok string
+}
+
+func newKey(ps *pset, seed []byte) *gkey {
+	k := &gkey{ps: ps}
+	copy(k.seed[:], seed)
+	k.pk, k.sk = ps.par.KeyGenFromSeed(k.seed)
+	k.pkb, k.skb = k.pk.Encode(), k.sk.Encode()
+	k.pkTok, k.skTok = hlib.Tok(k.pkb), hlib.Tok(k.skb)
+	return k
+}
+
+func fmtMsg(ctx, msg []byte) []byte {
+	out := []byte{0, byte(len(ctx))}
+	out = append(out, ctx...)
+	return append(out, msg...)
+}
+
+func shake256(n int, parts ...[]byte) []byte {
+	h := sha3.NewShake256()
+	for _, p := range parts {
+		h.Write(p)
+	}
+	out := make([]byte, n)
+	h.Read(out)
+	return out
+}
+
+func v01(err error) string {
+	if err != nil {
+		return "0"
+	}
+	return "1"
+}
+
+func okTok(b []byte) string { return "ok " + hlib.Tok(b) }
+
+var zero32 = make([]byte, 32)
+
+// forced runs f with crypto/rand.Reader replaced by a fresh tape whose first bytes are rnd, and
+// reports whether exactly those bytes were the first ones drawn.
+func forced(rng *hlib.Rng, rnd []byte, f func()) bool {
+	t := hlib.InstallTape(rng.U64())
+	t.Forced = append([]byte(nil), rnd...)
+	f()
+	d := t.Drawn()
+	t.Forced = nil
+	return len(d) >= len(rnd) && bytes.Equal(d[:len(rnd)], rnd)
+}
+
+// verify3 asks Go for its decision through three routes that must agree: the API with context,
+// Verify_internal on the formatted message, and a public key re-decoded from its bytes.
+func verify3(o *hlib.Out, k *gkey, pkb []byte, ctx, msg, sig []byte) string {
+	mp := fmtMsg(ctx, msg)
+	pk, err := k.ps.par.DecodePublicKey(pkb)
+	if err != nil {
+		return "0"
+	}
+	a := v01(pk.Verify(msg, sig, ctx))
+	b := v01(pk.VerifVerifyInternal(mp, sig))
+	if a != b {
+		o.Violate("ML-DSA-%s: Verify (ctx API) = %s but Verify_internal = %s", k.ps.name, a, b)
+	}
+	if bytes.Equal(pkb, k.pkb) {
+		c := v01(k.pk.Verify(msg, sig, ctx))
+		if a != c {
+			o.Violate("ML-DSA-%s: verification with the decoded public key = %s, with the generated key object = %s", k.ps.name, a, c)
+		}
+	}
+	return a
+}
+
+func emitVerify(o *hlib.Out, k *gkey, pkb []byte, ctx, msg, sig []byte, kind string) string {
+	v := verify3(o, k, pkb, ctx, msg, sig)
+	o.Emit("!D verify "+k.ps.name+" "+hlib.Tok(pkb)+" "+hlib.Tok(fmtMsg(ctx, msg))+" "+hlib.Tok(sig), v, true)
+	o.Count("verify/" + kind + "=" + v)
+	o.Count("set/" + k.ps.name + "/verify-lines")
+	return v
+}
+
+// ---------- replay: recompute Go's answer for any op line ----------
+
+func u32s(toks []string) ([]uint32, bool) {
+	out := make([]uint32, len(toks))
+	for i, t := range toks {
+		v, err := strconv.ParseUint(t, 10, 32)
+		if err != nil {
+			return nil, false
+		}
+		out[i] = uint32(v)
+	}
+	return out, true
+}
+
+func evalLine(line string) string {
+	toks := strings.Fields(line)
+	if len(toks) < 2 {
+		return "bad-op"
+	}
+	toks[0] = strings.TrimPrefix(toks[0], "!")
+	if toks[0] != "D" {
+		return "bad-op"
+	}
+	res := "bad-op"
+	p := hlib.Recover(func() {
+		switch toks[1] {
+		case "s":
+			if len(toks) < 4 {
+				return
+			}
+			a, ok := u32s(toks[3:])
+			if !ok {
+				return
+			}
+			if r, ok := scalarRes(toks[2], a); ok {
+				res = r
+			}
+		case "keygen":
+			ps := psetByName(toks[2])
+			k := newKey(ps, hlib.FromTok(toks[3]))
+			res = "ok " + k.pkTok + " " + k.skTok
+		case "sign", "signmu":
+			ps := psetByName(toks[2])
+			sk, err := ps.par.DecodeSecretKey(hlib.FromTok(toks[3]))
+			rb := hlib.FromTok(toks[5])
+			if err != nil || len(rb) != 32 {
+				res = "err"
+				return
+			}
+			var rnd [32]byte
+			copy(rnd[:], rb)
+			if toks[1] == "sign" {
+				res = okTok(sk.VerifSignInternal(hlib.FromTok(toks[4]), rnd))
+			} else {
+				mb := hlib.FromTok(toks[4])
+				if len(mb) != 64 {
+					res = "err"
+					return
+				}
+				var mu [64]byte
+				copy(mu[:], mb)
+				res = okTok(sk.VerifSignInternalWithMu(mu, rnd))
+			}
+		case "verify", "verifymu":
+			ps := psetByName(toks[2])
+			pk, err := ps.par.DecodePublicKey(hlib.FromTok(toks[3]))
+			if err != nil {
+				res = "0"
+				return
+			}
+			if toks[1] == "verify" {
+				res = v01(pk.VerifVerifyInternal(hlib.FromTok(toks[4]), hlib.FromTok(toks[5])))
+			} else {
+				mb := hlib.FromTok(toks[4])
+				if len(mb) != 64 {
+					res = "0"
+					return
+				}
+				var mu [64]byte
+				copy(mu[:], mb)
+				res = v01(pk.VerifyWithMu(mu, hlib.FromTok(toks[5])))
+			}
+		case "fmt":
+			ctx := hlib.FromTok(toks[2])
+			if len(ctx) > 255 {
+				res = "err"
+				return
+			}
+			res = okTok(fmtMsg(ctx, hlib.FromTok(toks[3])))
+		case "mu":
+			ps := psetByName(toks[2])
+			pk, err := ps.par.DecodePublicKey(hlib.FromTok(toks[3]))
+			if err != nil {
+				return
+			}
+			tr := pk.TR()
+			res = hlib.Tok(shake256(64, tr[:], hlib.FromTok(toks[4])))
+		}
+	})
+	if p != "" {
+		return "panic"
+	}
+	return res
+}
+
+func replay(o *hlib.Out, path string) {
+	f, err := os.Open(path)
+	if err != nil {
+		panic(err)
+	}
+	defer f.Close()
+	sc := bufio.NewScanner(f)
+	sc.Buffer(make([]byte, 1<<20), 1<<28)
+	for sc.Scan() {
+		l := strings.TrimSpace(sc.Text())
+		if l == "" {
+			continue
+		}
+		if strings.HasPrefix(l, "#") {
+			if strings.HasPrefix(l, "# case") {
+				o.Case()
+			}
+			continue
+		}
+		o.Emit(l, evalLine(l), true)
+		o.Count("replay")
+	}
+}
 
 func main() {
-	o := hlib.Open("c10")
+	o := hlib.Open("C10")
 	defer o.Close()
-	o.Emit("D s mul 8380416 8380416", "1", true)
-	o.Emit("D s add 8380416 1", "0", true)
+	psets = []*pset{
+		mkPset("44", imldsa.MLDSA44, pmldsa.MLDSA44),
+		mkPset("65", imldsa.MLDSA65, pmldsa.MLDSA65),
+		mkPset("87", imldsa.MLDSA87, pmldsa.MLDSA87),
+	}
+	for _, p := range psets {
+		want := map[string][3]int{"44": {1312, 2560, 2420}, "65": {1952, 4032, 3309}, "87": {2592, 4896, 4627}}[p.name]
+		if p.pkLen != want[0] || p.skLen != want[1] || p.sigLen != want[2] {
+			o.Violate("ML-DSA-%s sizes pk/sk/sig = %d/%d/%d, FIPS 204 Table 2 says %v", p.name, p.pkLen, p.skLen, p.sigLen, want)
+		}
+	}
+	seed := *hlib.FlagSeed
+	hlib.InstallTape(seed)
+	if hlib.Pre() {
+		// only the section that puts questions to the model runs in the request-collecting phase
+		craftSection(o, seed)
+		return
+	}
+	if *hlib.FlagReplay != "" {
+		replay(o, *hlib.FlagReplay)
+		return
+	}
+	scalarSection(o, seed)
+	codecSection(o, seed)
+	algSection(o, seed)
+	craftSection(o, seed)
+	apiSection(o, seed)
+	compositeSection(o, seed)
+	if len(o.Violation) > 0 {
+		fmt.Fprintln(os.Stderr, "oracle violations:", len(o.Violation))
+	}
 }
